@@ -46,6 +46,24 @@ PROJECT = [
 HISTORY = ["from t | select {a} | filter zz > 1", "from t | take", "from t | sort {b, -a, k} | sort {-a, b, k} | select {k, z = b} | select {k}",
            "from t | join (from u | select {k, c + 1}) (==k)", "from t | select {a, b}"]
 
+
+ABORTS = []
+def pvx(rep, args, out_path, what, env=None, timeout=3600):
+    """run pv; when the process dies (abort in a Drop during unwinding, a poisoned lock at exit, a signal) that is an
+    observation about the code under test - a violation - not a tool error; the run's partial output is not used"""
+    r = pv(args, env=env, check=False, timeout=timeout)
+    if r.returncode != 0:
+        tail = (r.stderr or "").strip()[-600:]
+        ABORTS.append(what)
+        rep.violation({"property": "C11", "kind": "process-abort", "run": what, "exit": r.returncode, "stderr": tail},
+                      {"what": "panic", "api": "process", "src": "", "scenario": what, "outputs": tail})
+        try:
+            os.remove(out_path)
+        except OSError:
+            pass
+        return None
+    return r
+
 def forced_schedules(rep, d, tier):
     """spec -> code: behaviours of the interleaving model (spec/PuritySched.tla = PurityMC + the steps taken), drawn by TLC's
     simulator, are imposed on the real threads through the gates of the hooks (pv sched: a thread passes a gate only when the
@@ -68,7 +86,9 @@ def forced_schedules(rep, d, tier):
     def one(k):
         sp = os.path.join(d, f"sched{k}.json"); op = os.path.join(d, f"sched{k}.ndjson")
         json.dump({"steps": scheds[k], "inputs": inputs, "nc": 2, "ni": 2}, open(sp, "w"))
-        rr = pv(["sched", sp, op, f"forced:{k}"], timeout=120)
+        rr = pvx(rep, ["sched", sp, op, f"forced:{k}"], op, f"forced schedule {k}: {json.dumps(scheds[k])[:400]}", timeout=120)
+        if rr is None:
+            return None, [0, 0, 0, 0]
         m = re.search(r"(\d+) steps, (\d+) realised, (\d+) skipped, (\d+) blocked", rr.stderr)
         return op, [int(x) for x in m.groups()] if m else [0, 0, 0, 0]
     from concurrent.futures import ThreadPoolExecutor
@@ -76,7 +96,8 @@ def forced_schedules(rep, d, tier):
         res = list(ex.map(one, range(len(scheds))))
     evs = []
     for op, _ in res:
-        evs += read_ndjson(op)
+        if op is not None:
+            evs += read_ndjson(op)
     evs.append({"event": "End"})
     norm = []
     for e in evs:
@@ -170,15 +191,14 @@ def check(tier):
             name, a, hist, env = r
             op = os.path.join(d, f"{name}-{ci}.ndjson")
             args = ["purity", ip, op] + a + ([hist] if hist else [])
-            pv(args, env=env)
-            return op
+            return op if pvx(rep, args, op, f"{name} ({' '.join(a)})", env=env) is not None else None
         from concurrent.futures import ThreadPoolExecutor
         with ThreadPoolExecutor(max_workers=4) as ex:
             files = list(ex.map(run, runs))
         # version: a process that changes the environment after a first call vs fresh processes started with it
-        pv(["purity", vp, os.path.join(d, f"env1-{ci}.ndjson"), "1", "1", "0", "env-version"])
-        pv(["purity", vp, os.path.join(d, f"env2-{ci}.ndjson"), "1", "1", "0", "env-fresh"], env={"PRQL_VERSION_OVERRIDE": "9.9.9"})
-        files += [os.path.join(d, f"env2-{ci}.ndjson"), os.path.join(d, f"env1-{ci}.ndjson")]
+        e1 = pvx(rep, ["purity", vp, os.path.join(d, f"env1-{ci}.ndjson"), "1", "1", "0", "env-version"], os.path.join(d, f"env1-{ci}.ndjson"), "env-version")
+        e2 = pvx(rep, ["purity", vp, os.path.join(d, f"env2-{ci}.ndjson"), "1", "1", "0", "env-fresh"], os.path.join(d, f"env2-{ci}.ndjson"), "env-fresh", env={"PRQL_VERSION_OVERRIDE": "9.9.9"})
+        files += ([os.path.join(d, f"env2-{ci}.ndjson")] if e2 else []) + ([os.path.join(d, f"env1-{ci}.ndjson")] if e1 else [])
         if ci == 0:
             # history across dialects: the same sources for all 12 dialects, on one thread, in two opposite orders and
             # after failing calls; the artefact of (source, dialect) must not depend on what was compiled before it
@@ -195,12 +215,13 @@ def check(tier):
             for tag_, lst in orders:
                 dp = os.path.join(d, f"{tag_}.json"); json.dump(lst, open(dp, "w"))
                 op_ = os.path.join(d, f"{tag_}.ndjson")
-                pv(["purity", dp, op_, "1", "1", "0", "dialect-order:" + tag_])
-                files.append(op_)
+                if pvx(rep, ["purity", dp, op_, "1", "1", "0", "dialect-order:" + tag_], op_, "dialect-order:" + tag_) is not None:
+                    files.append(op_)
             inputs = inputs + fwd
         evs = []
         for f in files:
-            evs += read_ndjson(f)
+            if f is not None and os.path.exists(f):
+                evs += read_ndjson(f)
         evs.append({"event": "End"})
         # uniform record shapes for TLC
         norm = []
@@ -250,16 +271,24 @@ def check(tier):
             norm = nm
     # binding demonstration: drop one hook event / change one counter / one result
     thr = []
-    for e in read_ndjson(os.path.join(d, "thr-0.ndjson")):
+    thr0 = os.path.join(d, "thr-0.ndjson")
+    # (when the threaded run itself died - reported above as a violation - there is nothing to corrupt: the hook events
+    # of the forced schedules are used instead, or the demonstration is skipped)
+    for e in (read_ndjson(thr0) if os.path.exists(thr0) else []):
         base = {"event": e["event"], "seq": 0, "thread": 0, "action": "", "present": False, "suppress": 0, "entries": 0,
                 "input": "", "out": 0, "kind": "", "scenario": ""}
         base.update({k: v for k, v in e.items() if k in base})
         thr.append(base)
     sched = [e for e in thr if e["event"] in ("Run", "Sched")][:300]
     only = [i for i, e in enumerate(sched) if e["event"] == "Sched"]
-    if len(only) < 40:
+    if len(only) < 40 and os.path.exists(thr0):
         raise ToolError("C11 selftest: the threaded run recorded fewer than 40 hook events")
-    end = [dict(norm[-1])]
+    end = [{"event": "End", "seq": 0, "thread": 0, "action": "", "present": False, "suppress": 0, "entries": 0, "input": "", "out": 0, "kind": "", "scenario": ""}]
+    if len(only) < 40:
+        forced = forced_schedules(rep, d, tier)
+        cov = {"states": info["distinct"], "transitions": info["generated"], "traces_validated_against_impl": 0, "forced_schedules": forced,
+               "samples": [], "explanation": "the threaded run of the code under test died (see the violations); the binding demonstration needs its hook events and was skipped", "aborted_runs": ABORTS[:20]}
+        return rep.finish("model_checking", cov, ["the code under test aborted the process in at least one run"])
     bad1 = [dict(e) for e in sched]; del bad1[only[10]]                       # a missing event: the numbering has a gap
     bad2 = [dict(e) for e in sched]; bad2[only[20]]["suppress"] += 1          # a counter value the code did not produce
     bad3 = [dict(e) for e in sched]; bad3[only[30]]["present"] = not bad3[only[30]]["present"]
